@@ -19,11 +19,19 @@ for d in sorted(glob.glob(os.path.join(HERE, "seeded", "*"))):
     else:
         caught = ", ".join(res.get("caught_by", [])) or "-"
         ran = "%d checks, %s" % (len(res.get("results", {})), res.get("tier"))
-    what = (meta.get("what") or meta.get("needs_to_manifest") or "").replace("\n", " ").replace("|", "/")[:110]
+    title = ""
+    if os.path.exists(os.path.join(d, "notes.md")):
+        lines = [l.strip() for l in open(os.path.join(d, "notes.md")).read().splitlines()]
+        title = next((l.lstrip("# ").strip() for l in lines if l.startswith("#")), "")
+        if len(title) < 30 or title.lower().startswith("what was changed"):
+            title = " ".join(l for l in lines if l and not l.startswith("#") and not l.startswith("property:"))
+    what = (title or meta.get("what") or meta.get("needs_to_manifest") or "").replace("\n", " ").replace("|", "/")[:110]
     rows.append("| %s | %s | %s | %s | %s |" % (name, prop, caught, ran, what))
 table = "| seeded change | property | caught by (quick) | run | summary |\n|---|---|---|---|---|\n" + "\n".join(rows)
 p = os.path.join(HERE, "DESIGN.md")
 s = open(p).read()
-s = re.sub(r"<!-- CATCHES-TABLE-BEGIN -->.*<!-- CATCHES-TABLE-END -->", "<!-- CATCHES-TABLE-BEGIN -->\n" + table + "\n<!-- CATCHES-TABLE-END -->", s, flags=re.S)
+a = s.index("<!-- CATCHES-TABLE-BEGIN -->")
+b = s.index("<!-- CATCHES-TABLE-END -->")
+s = s[:a] + "<!-- CATCHES-TABLE-BEGIN -->\n" + table + "\n" + s[b:]
 open(p, "w").write(s)
 print("rows:", len(rows))
